@@ -127,6 +127,49 @@ func vary(r *gen.RNG, groups [][]jop, hs []ref.Hunk, kind int, prof gen.Profile)
 			return cp, "append-token-multi", true
 		}
 		return cp, "append-token", true
+	case 8:
+		// a hunk moved onto the index of its predecessor in the same array, keeping all, only the
+		// after-context or only the before-context test of its own
+		var cands []int
+		for j := 1; j < len(hs); j++ {
+			pj, pi := hs[j].Path, hs[j-1].Path
+			if len(pj) == 0 || len(pj) != len(pi) || pj[len(pj)-1].Kind != ref.KIndex || pi[len(pi)-1].Kind != ref.KIndex {
+				continue
+			}
+			if (ref.Hunk{Path: pj[:len(pj)-1]}).PathString() == (ref.Hunk{Path: pi[:len(pi)-1]}).PathString() {
+				cands = append(cands, j)
+			}
+		}
+		if len(cands) == 0 {
+			return cp, "", false
+		}
+		j := gen.Pick(r, cands)
+		delta := hs[j-1].Path[len(hs[j-1].Path)-1].Index - hs[j].Path[len(hs[j].Path)-1].Index
+		gj := cp[j]
+		for i := range gj {
+			pre, tok := lastTok(gj[i].Path)
+			n, err := strconv.Atoi(tok)
+			if err != nil || n+delta < 0 {
+				return cp, "", false
+			}
+			gj[i].Path = pre + strconv.Itoa(n+delta)
+		}
+		hasBefore := len(hs[j].Before) == 1 && !ref.IsVoid(hs[j].Before[0])
+		mode := r.Intn(3) // 0 keep all, 1 drop the before test, 2 drop the after test
+		var out []jop
+		ctxSeen := 0
+		for i := range gj {
+			if isContextTest(gj, i) {
+				isBefore := hasBefore && ctxSeen == 0
+				ctxSeen++
+				if (mode == 1 && isBefore) || (mode == 2 && !isBefore) {
+					continue
+				}
+			}
+			out = append(out, gj[i])
+		}
+		cp[j] = out
+		return cp, "onto-predecessor-index", true
 	case 6:
 		// non-canonical array index tokens: RFC 6901 rejects all of them
 		if !isList {
@@ -288,13 +331,13 @@ func init() {
 			"end-of-array adds rewritten as forward-order '-' appends, non-canonical index tokens, and pairs of these in sequence) applied to a, b and perturbations; whenever ReadPatchString and Patch both succeed the harness's RFC 6902 evaluation of the same text on the same document must succeed with an equal result; " +
 			"jd's own output on a must reproduce b; non-trivial = every case (non-empty expressible diff); distinct = distinct (a, b, patch text)",
 		Floors: map[string]int{"both_sides_evaluated(jd applied)": 20000, "agree": 20000, "own_output_reproduces_b": 5000, "jd_applied:drop-hunk": 500, "jd_applied:drop-context-tests": 500,
-			"jd_applied:change-test/remove-value": 200, "jd_applied:shift-indices": 200, "jd_applied:append-token": 200, "jd_applied:append-token-multi": 50, "jd_applied:compound": 200},
+			"jd_applied:change-test/remove-value": 200, "jd_applied:shift-indices": 200, "jd_applied:append-token": 200, "jd_applied:append-token-multi": 50, "jd_applied:compound": 200, "jd_applied:onto-predecessor-index": 200},
 		Assumptions: []string{
 			"jd erroring where the RFC evaluation succeeds is allowed (counted as jd_stricter_than_rfc); only 'more permissive or different' is a violation",
 			"same RFC 6902 reading of root replacement as C09 (DESIGN 5.9)",
 		},
 	}
-	for kind, name := range []string{"as-is", "drop-hunk", "drop-context-tests", "change-value", "shift-indices", "append-token", "non-canonical-index", "compound"} {
+	for kind, name := range []string{"as-is", "drop-hunk", "drop-context-tests", "change-value", "shift-indices", "append-token", "non-canonical-index", "compound", "onto-predecessor-index"} {
 		kind := kind
 		p.Strata = append(p.Strata, mon.Stratum{
 			Name: "variation/" + name,
@@ -303,6 +346,13 @@ func init() {
 				prof := patchProfiles[i%5]
 				var a, b any
 				switch {
+				case kind == 8:
+					// two or more hunks in one scalar array
+					arrA := gen.Array(c.R, gen.PTiny, c.R.Range(2, 7), 0)
+					arrB := mutateScalarArray(c.R, gen.PTiny, mutateScalarArray(c.R, gen.PTiny, arrA))
+					w := i % 4
+					a, b = gen.Wrap(arrA, w), gen.Wrap(arrB, w)
+					prof = gen.PTiny
 				case kind == 5 || i%3 == 0:
 					// arrays edited at the tail (end-of-array adds), at several depths
 					arrA := gen.Array(c.R, gen.PTiny, c.R.Range(0, 5), 0.1)
